@@ -53,7 +53,7 @@ def rule_dir_count(ctx):
         v = option_variant(args[2]) if len(args) > 2 else None
         sites[bi] = v
         if v is None:
-            ctx.unproven(R, ("site", b.where(bi)), b.where(bi),
+            ctx.unproven(R, ("site", "flush#%d" % (len(sites))), b.where(bi),
                          "write_to_file argument is not a literal Some/None: %s" % show(args[2])[:200])
     n_some = sum(1 for v in sites.values() if v == "Some")
     n_none = sum(1 for v in sites.values() if v == "None")
@@ -62,7 +62,7 @@ def rule_dir_count(ctx):
     cyc = b.in_cycle_blocks()
     for bi in sites:
         if bi in cyc:
-            ctx.unproven(R, ("loop", b.where(bi)), b.where(bi), "directory entry emitted inside a loop: count is not a path constant")
+            ctx.unproven(R, ("loop", "flush#%d" % (sorted(sites).index(bi) + 1)), b.where(bi), "directory entry emitted inside a loop: count is not a path constant")
     # declared count: argument of DirSection::new and header.stream_count
     declared = set()
     new_sites = list(b.calls(lambda c: c.is_("dir_section::DirSection::new")))
